@@ -131,7 +131,9 @@ func XML(URL *models.URL) (assets, outlinks []*models.URL, err error) {
 			}
 		case xml.CharData:
 			if bytes.HasPrefix(tok, []byte("http")) {
-				rawURLs = append(rawURLs, string(tok))
+				// The whole text node is taken for a URL: drop the white space a
+				// pretty-printer leaves between the URL and the closing tag
+				rawURLs = append(rawURLs, strings.TrimSpace(string(tok)))
 			} else {
 				// Try to extract URLs from the text
 				rawURLs = append(rawURLs, utils.DedupeStrings(LinkRegexStrict.FindAllString(string(tok), -1))...)
